@@ -2,6 +2,14 @@
 """Run every seeded mutant against the checks that should catch it; write seeded/RESULTS.json."""
 import json, os, subprocess, sys
 TARGETS = {  # mutant -> checks to run (first = the property it was seeded for)
+    "benign-bufreader-64k": ["C01", "C02", "C04", "C05", "C06", "C19"],
+    "benign-piece-16k": ["C01", "C02", "C05", "C19"],
+    "benign-header-order": ["C07", "C08", "C10", "C12", "C16"],
+    "benign-user-agent": ["C07", "C16"],
+    "benign-line-limit-32k": ["C04", "C05", "C12"],
+    "benign-watchdog-ping-order": ["C13"],
+    "benign-refill-inline": ["C01", "C02", "C05", "C19"],
+    "D09-asfound": ["C13"],
 }
 def main():
     only = sys.argv[1:]
@@ -18,7 +26,10 @@ def main():
         line = [l for l in p.stdout.splitlines() if l.startswith("RESULT")]
         if line:
             r = json.loads(line[0][7:])[d]
-            res[d] = {c: {"rc": v["rc"], "caught": v["rc"] == 1} for c, v in r.items()}
+            if d.startswith("benign-"):
+                res[d] = {c: {"rc": v["rc"], "quiet": v["rc"] == 0} for c, v in r.items()}
+            else:
+                res[d] = {c: {"rc": v["rc"], "caught": v["rc"] == 1, "tail": v.get("tail", [])[:2] if v["rc"] == 2 else []} for c, v in r.items()}
         else:
             res[d] = {"error": p.stdout[-300:]}
         print(d, res[d], flush=True)
